@@ -302,6 +302,10 @@ def run(ctx):
             if isinstance(par, ast.Await):
                 c.ob("R14", True, f_, f"stop-awaited:{norm(x.func.value)}", "the child's stop() is awaited", x)
                 continue
+            # handed to an awaited helper:  await self._maybe_await(actor.stop())
+            if isinstance(par, ast.Call) and any(x is a_ for a_ in par.args) and isinstance(pm.get(id(par)), ast.Await):
+                c.ob("R14", True, f_, f"stop-awaited:{norm(x.func.value)}", "the result of the child's stop() is handed to an awaited helper", x)
+                continue
             var = par.targets[0].id if isinstance(par, ast.Assign) and isinstance(par.targets[0], ast.Name) else None
             aw = [y for y in own_nodes(f_.node) if isinstance(y, ast.Await) and var and norm(y.value) == var]
             ok = False
